@@ -62,7 +62,7 @@ func c16Quiesce(t veriflib.TB, c c16NetCase, run *Runner, phase string, hist fun
 			last, since = s, time.Now()
 		} else if time.Since(since) > c.Settings.Window() {
 			var bad []string
-			for _, e := range p.Farm.Log("") {
+			for _, e := range p.Farm.LogNow("") {
 				if sp := c.Site[specKey(p.Farm, e)]; sp != nil && strings.HasPrefix(sp.Fault, "badgzip") && e.Attempt > sp.FailFirst {
 					bad = append(bad, fmt.Sprintf("%s (%s)", e.URL, sp.Fault))
 				}
